@@ -1,6 +1,7 @@
 """Per-property instance generators: which harness instances (harness symbol + concrete size/shape
 parameters) make up the quick and the thorough tier of each property."""
 import random
+import shapes as S
 
 
 def J(harness, params, label, profile='dev', cost=1, **limits):
@@ -188,7 +189,193 @@ def c08(tier, seed):
             'outside': ['longer fully symbolic texts', 'non-ASCII literal text (covered for single characters by C17)']}
 
 
-PROPS = {'C06': c06, 'C09': c09, 'C17': c17, 'C08': c08, 'C15': c15, 'C11': c11, 'C12': c12, 'C20': c20}
+def built_shapes(tier):
+    sh = [(1, [0]), (1, [1]), (1, [2]), (2, [0, 0]), (2, [1, 0]), (2, [0, 1])]
+    if tier == 'thorough':
+        sh += [(1, [3]), (2, [1, 1]), (2, [2, 0]), (2, [2, 1]), (3, [0, 0, 0]), (3, [1, 0, 0]), (3, [1, 1, 0])]
+    return sh
+
+
+def built_jobs(tier, whats):
+    jobs = []
+    L = 1 if tier == 'quick' else 2
+    names = {0: 'structure', 1: 'remove_unreachable', 2: 'minimize', 3: 'prune+minimize'}
+    for n, kk in built_shapes(tier):
+        k4 = (kk + [0, 0, 0, 0])[:4]
+        for what in whats:
+            jobs.append(J('vh_c14_built', [n] + k4 + [L if what else 0, what],
+                          'built automaton %s: %d states, transitions per state %s, |w|=%d' % (names[what], n, kk, L if what else 0),
+                          cost=(3 ** sum(kk)) * (n ** (sum(kk) + n))))
+    return jobs
+
+
+def c13(tier, seed):
+    jobs = []
+    anys = [(1, 1), (1, 2), (2, 1)] if tier == 'quick' else [(1, 1), (1, 2), (1, 3), (2, 1), (2, 2), (3, 1)]
+    for n, k in anys:
+        jobs.append(J('vh_c13_any', [n, k], 'arbitrary spec: %d states x %d transitions (labels may overlap, defaults optional)' % (n, k), cost=10 ** (n * k)))
+    for n, kk in built_shapes(tier):
+        k4 = (kk + [0, 0, 0, 0])[:4]
+        jobs.append(J('vh_c13_complete', [n] + k4, 'complete spec: %d states, transitions per state %s' % (n, kk), cost=3 ** sum(kk)))
+    return {'jobs': jobs,
+            'bounds': 'AutomatonBuilder<u32>; arbitrary call sequences with %s (states x transitions per state): every label end point, target, default '
+                      'flag/target and final mark symbolic, witness character symbolic; complete specifications of shapes %s' % (anys, built_shapes(tier)),
+            'outside': ['more states / transitions per state', 'other key types than u32 (BaseRegLan keys are exercised through compile in C02)',
+                        'acceptance of overlapping labels with equal targets is not demanded (documented as rejected)']}
+
+
+def c14(tier, seed):
+    jobs = built_jobs(tier, [0, 1])
+    nm = [(1, 1), (2, 2), (3, 2), (2, 3), (3, 3)] if tier == 'quick' else [(1, 1), (2, 2), (3, 2), (2, 3), (3, 3), (4, 3), (3, 4), (4, 4)]
+    for n, m in nm:
+        for d in (0, 1):
+            jobs.append(J('vh_c14_table', [n, m, d], 'compact table %dx%d %s' % (n, m, 'with defaults' if d else 'all cells given'), cost=2 ** (n * m * d)))
+    return {'jobs': jobs,
+            'bounds': 'builder-made complete automata of shapes %s with symbolic labels/targets/defaults/final marks (unreachable states arise from '
+                      'the symbolic targets), symbolic characters x,y and a symbolic string; CompactTableBuilder driven directly on %s tables with a '
+                      'symbolic choice of non-default cells; compiled automata are covered in C02' % (built_shapes(tier), nm),
+            'outside': ['larger automata / tables']}
+
+
+def c04(tier, seed):
+    jobs = []
+    nm = [(1, 1), (2, 1), (2, 2), (3, 1), (3, 2)] if tier == 'quick' else [(1, 1), (2, 1), (2, 2), (3, 1), (3, 2), (3, 3), (4, 1), (4, 2)]
+    for n, m in nm:
+        jobs.append(J('vh_c04_table', [n, m], 'Hopcroft on an arbitrary %d-state %d-letter table' % (n, m), cost=(n ** (n * m)) * 2 ** n))
+    jobs += built_jobs(tier, [2, 3])
+    return {'jobs': jobs,
+            'bounds': 'Minimizer::refine on every complete transition table with %s (states x letters): all successors and final flags symbolic, '
+                      'compared with Moore distinguishability; Automaton::minimize on builder-made automata of shapes %s: bisimulation of initial '
+                      'states on the union automaton (language equality for strings of any length on that path), pairwise distinguishable result, '
+                      'state count = Nerode index; compiled expressions are covered in C02' % (nm, built_shapes(tier)),
+            'outside': ['more states / letters']}
+
+
+def RJ(harness, api, n, b, extra, sh, label, **kw):
+    toks = S.tokens(sh) if not isinstance(sh, list) else sh
+    return J(harness, [api, n, b, extra] + toks, label, cost=kw.pop('cost', 4 ** (S.nsym(sh) if not isinstance(sh, list) else 4) * 3 ** n), **kw)
+
+
+def regex_shapes(prop, tier, seed, cap_quick=None, cap_thorough=150):
+    if tier == 'quick':
+        sh = S.quick_list(prop, seed)
+        if cap_quick:
+            rnd = random.Random(seed * 13 + len(prop))
+            keep = sh[:]
+            rnd.shuffle(keep)
+            sh = [x for x in sh if x in keep[:cap_quick]]
+        return sh
+    return S.thorough_list(prop, seed, cap_thorough)
+
+
+REGEX_OUT = ['construction programs outside the listed shapes (deeper nesting)', 'strings longer than the stated length',
+             'loop bounds above the stated B (their arithmetic is covered by C15)']
+
+
+def regex_spec(jobs, shapes, tier, what, nmax, b):
+    return {'jobs': jobs,
+            'bounds': '%s; %d construction shapes (structure concrete, all range end points / characters / loop bounds symbolic, loop bounds in [0,%d]); '
+                      'strings of length <= %d with symbolic characters; shapes: %s' % (what, len(shapes), b, nmax, ' '.join(S.show(x) for x in shapes[:400])),
+            'outside': REGEX_OUT}
+
+
+def c01(tier, seed):
+    shapes = regex_shapes('C01', tier, seed)
+    ns, b = ((1, 2), 2) if tier == 'quick' else ((0, 1, 2, 3), 3)
+    jobs = []
+    for k, sh in enumerate(shapes):
+        for n in ns:
+            if tier == 'quick' and n != ns[-1] and k % 3 != seed % 3:
+                continue   # quick: the shorter length on a seed-rotated third of the shapes
+            jobs.append(RJ('vh_c01_member', 0, n, b, 0, sh, 'member %s |w|=%d' % (S.show(sh), n)))
+        if k % 4 == seed % 4:
+            jobs.append(RJ('vh_c01_member', 1, ns[-1] if tier == 'quick' else 2, b, 0, sh, 'member via re_* wrappers %s' % S.show(sh)))
+    return regex_spec(jobs, shapes, tier, 'str_in_re and nullable against the SMT-LIB denotation (ReManager API and, for every 4th shape, the re_* wrappers)', ns[-1], b)
+
+
+def c03(tier, seed):
+    shapes = regex_shapes('C03', tier, seed)
+    ns, b = ((1,), 2) if tier == 'quick' else ((0, 1, 2), 3)
+    jobs = []
+    for sh in shapes:
+        for n in ns:
+            jobs.append(RJ('vh_c03_deriv', 0, n, b, 0, sh, 'char/class derivative %s |w|=%d' % (S.show(sh), n)))
+        jobs.append(RJ('vh_c03_deriv', 0, ns[0], b, 1, sh, 'set derivative %s |w|=%d' % (S.show(sh), ns[0])))
+    return regex_spec(jobs, shapes, tier, 'char_derivative / class_derivative (every class, symbolic member) / set_derivative (symbolic [a,b]) / str_derivative / BadClassId', ns[-1] + 1, b)
+
+
+def c02(tier, seed):
+    shapes = regex_shapes('C02', tier, seed)
+    ns, b = ((2,), 2) if tier == 'quick' else ((1, 2, 3), 3)
+    jobs = []
+    for sh in shapes:
+        for n in ns:
+            jobs.append(RJ('vh_c02_compile', 0, n, b, 0, sh, 'compile: language, totality, inductive step %s |w|=%d' % (S.show(sh), n)))
+        jobs.append(RJ('vh_c02_compile', 0, 1, b, 1, sh, 'compiled automaton: structure (C14) + minimize (C04) %s' % S.show(sh)))
+    return regex_spec(jobs, shapes, tier, 'compile/try_compile: acceptance = denotation on bounded strings, next total for symbolic char in every state, '
+                      'states = derivative closure in BFS order with delta(state_i,c) = state of char_derivative(term_i,c) (one inductive step, any length); '
+                      'structure and minimize checks of C14/C04 on the compiled automaton', ns[-1], b)
+
+
+def c05(tier, seed):
+    shapes = regex_shapes('C05', tier, seed)
+    ns, b = ((2,), 2) if tier == 'quick' else ((1, 2, 3), 3)
+    jobs = [RJ('vh_c05_empty', 0, n, b, 0, sh, 'emptiness/witness %s |w|=%d' % (S.show(sh), n)) for sh in shapes for n in ns]
+    return regex_spec(jobs, shapes, tier, 'is_empty_re / get_string: agreement, witness is well formed and a member by membership test, oracle and compiled automaton; '
+                      'empty => no member among symbolic strings up to the bound and no nullable derivative', ns[-1], b)
+
+
+def c18(tier, seed):
+    shapes = regex_shapes('C18', tier, seed)
+    ns, b = ((1,), 2) if tier == 'quick' else ((0, 1, 2), 3)
+    jobs = [RJ('vh_c18_start', 0, n, b, 0, sh, 'start_char/start_class %s |w|=%d' % (S.show(sh), n)) for sh in shapes for n in ns]
+    return regex_spec(jobs, shapes, tier, 'start_char(e,c) for symbolic c against emptiness of the derivative and against the oracle (member c.w => true; true => witness c.v is a member); '
+                      'start_class per class with a symbolic member; BadClassId', ns[-1] + 1, b)
+
+
+def c19(tier, seed):
+    shapes = regex_shapes('C19', tier, seed)
+    b = 2 if tier == 'quick' else 3
+    jobs = [RJ('vh_c19_closure', 0, 0, b, 0, sh, 'derivative closure / try_compile bound %s' % S.show(sh)) for sh in shapes]
+    return regex_spec(jobs, shapes, tier, 'iter_derivatives: e first, pairwise distinct, closed under char_derivative for symbolic c; try_compile(e,n) with symbolic n', 0, b)
+
+
+def c16(tier, seed):
+    prs = S.pairs(tier, seed, 120)
+    ns, b = ((2, 3), 2) if tier == 'quick' else ((1, 2, 3, 4), 2)
+    jobs = []
+    for (r, s2) in prs:
+        for n in ns:
+            toks = S.tokens(r) + S.tokens(s2)
+            jobs.append(J('vh_c16_incl', [0, n, b, 0] + toks, 'included_in %s <= %s |w|=%d' % (S.show(r), S.show(s2), n),
+                          cost=4 ** (S.nsym(r) + S.nsym(s2)) * 3 ** n))
+    return {'jobs': jobs,
+            'bounds': '%d ordered pairs of shapes (symbolic ranges/characters/loop bounds), strings of length %s with symbolic characters; '
+                      'pairs: %s' % (len(prs), ns, ' ; '.join('%s <= %s' % (S.show(r), S.show(s2)) for r, s2 in prs[:200])),
+            'outside': REGEX_OUT + ['inclusion claims that need a longer string to be refuted']}
+
+
+def c07(tier, seed):
+    shapes = regex_shapes('C07', tier, seed, cap_quick=24, cap_thorough=60)
+    steps, b = (1, 2) if tier == 'quick' else (2, 2)
+    jobs = []
+    for sh in shapes:
+        jobs.append(RJ('vh_c07_hashcons', 0, 1, b, steps, sh, 'hash-consing under %d+%d history steps: %s' % (steps, steps, S.show(sh)), cost=64 ** steps))
+        jobs.append(RJ('vh_c07_wrappers', 1, 1, b, 0, sh, 'thread-local manager history: %s' % S.show(sh)))
+    return regex_spec(jobs, shapes, tier, 'rebuild after histories of %d steps before and %d after the first build, every step chosen by a symbolic selector from a menu of 8 '
+                      '(char, concat, union, complement, derivative, compile, emptiness, star); pointer identity, == iff identity, complement involution, language '
+                      'independent of history; wrapper variant on the thread-local manager with operand-order variation' % (steps, steps), 1, b)
+
+
+def c10(tier, seed):
+    shapes = regex_shapes('C10', tier, seed, cap_quick=40, cap_thorough=100)
+    ns, tl, b = ((2,), 1, 2) if tier == 'quick' else ((1, 2, 3), 1, 2)
+    jobs = [RJ('vh_c10_replace', 1, n, b, tl, sh, 'replace_re / replace_re_all pattern %s |s|=%d |t|=%d' % (S.show(sh), n, tl)) for sh in shapes for n in ns]
+    return regex_spec(jobs, shapes, tier, 'str_replace_re / str_replace_re_all through the thread-local manager: leftmost-then-shortest (possibly empty) match, resp. '
+                      'left-to-right leftmost-shortest non-empty matches, as boolean formula over all concrete (i,j); replacement of length %d' % tl, ns[-1], b)
+
+
+PROPS = {'C01': c01, 'C02': c02, 'C03': c03, 'C05': c05, 'C07': c07, 'C10': c10, 'C16': c16, 'C18': c18, 'C19': c19, 'C13': c13, 'C14': c14, 'C04': c04, 'C06': c06, 'C09': c09, 'C17': c17, 'C08': c08, 'C15': c15, 'C11': c11, 'C12': c12, 'C20': c20}
 
 
 def get(pid, tier, seed):
